@@ -12,17 +12,20 @@ Definition proj (f : frame) : ref_frame :=
         (a_port (f_src f)) (a_port (f_dst f))
         (opt_off (f_off4 f)) (opt_off (f_off6 f)) (opt_off (f_offU f)) (opt_off (f_offT f)) (f_offP f).
 
-(* Parse agrees with the reference decoder on a frame: same error-or-not, same projection *)
+(* Parse agrees with the reference decoder on a frame: same error-or-not, same error class, same projection *)
+(* class of a Parse error: the sentinel it wraps *)
+Definition err_class (x : err) : rerr := match x with EParseFrame => RParse | _ => RLen end.
+
 Definition agrees (r : res frame) (e : ref_result) : Prop :=
   match r with
   | Ok f => e = ROk (proj f)
-  | Err _ => e = RErr
+  | Err x => e = RErr (err_class x)
   | Panic => False
   | Fuel => False
   end.
 Definition agreesb (r : res frame) (e : ref_result) : bool :=
   match r, e with
-  | Err _, RErr => true
+  | Err x, RErr y => match err_class x, y with RLen, RLen => true | RParse, RParse => true | _, _ => false end
   | Ok f, ROk x =>
       let y := proj f in
       (r_id x =? r_id y) && bytes_eqb (r_smac x) (r_smac y) && bytes_eqb (r_dmac x) (r_dmac y)
@@ -39,6 +42,7 @@ Definition agreesb (r : res frame) (e : ref_result) : bool :=
 Lemma agreesb_false_not_agrees r e : agreesb r e = false -> ~ agrees r e.
 Proof.
   intros H A. destruct r as [f|x| |]; cbn in A; try contradiction; subst e; cbn in H; try discriminate.
+  2:{ destruct (err_class x); discriminate. }
   assert (Hb : forall l, bytes_eqb l l = true).
   { induction l as [|a l IH]; cbn; [reflexivity|]. rewrite N.eqb_refl, IH. reflexivity. }
   rewrite !N.eqb_refl, !Hb, !Nat.eqb_refl in H. cbn [andb] in H.
